@@ -83,6 +83,28 @@ theorem restart_inv (s : Pool) : Inv s.restart ∧ s.restart.executed = s.execut
 example : ((Pool.empty 9).markExecutedZ [(11, 60000), (12, 60000), (13, 5)] [⟨1, 11, [], 0, 0, 0⟩, ⟨2, 12, [], 0, 0, 0⟩, ⟨3, 13, [], 0, 0, 0⟩] [] (some 2)).2
     = ([2], .crash) := by decide
 
+/-! ## A batch write that returns an error (write fault, not a crash) -/
+
+/-- What one would want: whatever the store answers, a `MarkExecuted` call that returns leaves every receipt of the
+block recorded (or reports the failure). -/
+def FullStatementWriteError : Prop :=
+  ∀ (s : Pool) (rs : List (Nat × Nat)) (txs : List Tx), Inv s → Covered (rs.map (·.1)) txs → (∀ p ∈ rs, 0 < p.2) →
+    ∀ h ∈ rs.map (·.1), (s.markExecutedWriteError rs txs []).isExecuted h = true
+
+/-- False of the model, which transcribes the source here (`MarkExecuted` has no error result and drops what
+`batch.Write` returns, then resets the batch — pinned by `Props/C17B.dropped_errors_as_modelled`): after a failed
+write the block's transactions are neither pending nor recorded, and a re-submission is accepted. Outside the
+property's quantifier (store faults are not among its operations); kept as a statement so that a change of the error
+handling is noticed. -/
+theorem write_error_loses_records : ¬ FullStatementWriteError := by
+  intro h
+  have := h (Pool.empty 5) [(11, 1)] [⟨1, 11, [], 0, 0, 0⟩] (inv_empty 5)
+    (by intro x hx; simp at hx; subst hx; exact ⟨⟨1, 11, [], 0, 0, 0⟩, by simp, rfl⟩) (by intro p hp; simp at hp; subst hp; simp) 11 (by simp)
+  revert this
+  decide
+
+example : (((Pool.empty 5).markExecutedWriteError [(11, 1)] [⟨1, 11, [], 0, 0, 0⟩] []).addTransaction ⟨1, 11, [], 0, 0, 0⟩).2 = .ok := by decide
+
 /-! ## Evictions (`header.EvictedTxs`, the `evictedTxs` LRU) -/
 
 /-- Evicted hashes leave the pending container… -/
